@@ -414,3 +414,42 @@ pub fn run(line: &str) -> String {
         _ => "bad-case".into(),
     }
 }
+
+#[cfg(test)]
+mod tests {
+    use super::run_selectors;
+
+    /// Replays the two findings of docs/pkg-selpure.md with literally spelled selectors
+    /// (`cargo test --offline -- --nocapture replay`). Prints observed vs CSS-expected; asserts only
+    /// the sanity cases, so it keeps passing once the defects are repaired.
+    #[test]
+    fn replay_findings_with_literal_selectors() {
+        let fired = |sel: &str, doc: &str| -> usize {
+            run_selectors(&[sel.to_string()], doc.as_bytes()).unwrap()[0].len()
+        };
+        let doc = "<r><x data-probe=1></x><x data-probe=2></x></r>";
+        for (sel, css) in [
+            ("x:nth-child(n-2147483648)", 2),
+            ("x:nth-child(-n-2147483647)", 0),
+            ("x:nth-of-type(n-2147483648)", 2),
+            ("x:nth-of-type(-n-2147483647)", 0),
+            ("x:nth-child(n-2147483646)", 2),
+            ("x:nth-child(2n+1)", 1),
+        ] {
+            println!("{sel:32} on {doc}: fired {} times, CSS expects {css}", fired(sel, doc));
+        }
+        for (sel, doc, css) in [
+            ("x[k^=\"\"]", "<x data-probe=p k=\"foo\">", 0),
+            ("x[k$=\"\"]", "<x data-probe=p k=\"ab\">", 0),
+            ("x[k~=\"\"]", "<x data-probe=p k=\"\">", 0),
+            ("x[k~=\"\"]", "<x data-probe=p k=\"a \">", 0),
+            ("x[k~=\"\"]", "<x data-probe=p k=\"a  b\">", 0),
+            ("x[k*=\"\"]", "<x data-probe=p k=\"foo\">", 0),
+            ("x[k~=\"\"]", "<x data-probe=p k=\"a b\">", 0),
+        ] {
+            println!("{sel:32} on {doc}: fired {} times, CSS expects {css}", fired(sel, doc));
+        }
+        assert_eq!(fired("x:nth-child(2n+1)", doc), 1);
+        assert_eq!(fired("x[k*=\"\"]", "<x data-probe=p k=\"foo\">"), 0);
+    }
+}
